@@ -130,6 +130,13 @@ static std::string fullApi(const ParameterTree& pt, const std::vector<std::strin
   if (!qs.empty()) {
     try { std::ostringstream os; pt.sub(qs[0]).report(os); out += " r=" + hex(os.str()); } catch (const Dune::RangeError&) { out += " r=E"; }
   }
+  // report() read back by readINITree into an empty tree (what the suite's testReport does for one tree)
+  {
+    std::stringstream os; pt.report(os);
+    ParameterTree back;
+    std::string st = guarded([&] { ParameterTreeParser::readINITree(os, back, true); });
+    out += " rr=" + st + ":" + dump(back) + " rt=";
+  }
   // copy construction, assignment, move: deep and independent of later changes of the source
   {
     std::string d0 = dump(pt);
